@@ -53,12 +53,11 @@ class TLCResult:
                 self.error = m.group(1).strip()[:2000]
 
     def tuples(self, tag):
-        """All PrintT'ed tuples <<"tag", ...>> as python lists (TLA+ value syntax subset)."""
+        """All PrintT'ed tuples <<"tag", ...>> as python lists.  TLC pretty-prints a long tuple over several lines
+        ("<< "tag",\n   ... >>"), so the output is scanned as a whole, not line by line."""
         res = []
-        prefix = '<<"%s"' % tag
-        for line in self.out.splitlines():
-            if line.startswith(prefix):
-                res.append(parse_tla_value(line)[0])
+        for m in re.finditer(r'^<<\s*"%s"' % re.escape(tag), self.out, re.M):
+            res.append(parse_tla_value(self.out, m.start())[0])
         return res
 
     def coverage(self):
@@ -218,14 +217,20 @@ def simulate_behaviours(module, cfg, workdir, n, name=None, depth=12, seed=0, wo
     out = []
     head = []
     prefix = '<<"%s"' % tag
+    pending = None
     try:
         for line in p.stdout:
-            if line.startswith(prefix):
-                out.append(parse_tla_value(line)[0])
-                if len(out) >= n:
-                    break
+            if pending is not None:
+                pending += line
+            elif re.match(r'<<\s*"%s"' % re.escape(tag), line):
+                pending = line
             elif len(head) < 200:
                 head.append(line)
+            if pending is not None and pending.count('<<') <= pending.count('>>'):
+                out.append(parse_tla_value(pending)[0])
+                pending = None
+                if len(out) >= n:
+                    break
             if time.time() - t0 > timeout:
                 break
     finally:
